@@ -133,11 +133,29 @@ CHECKS = [
                 "and the file-name regex on letter/digit stems; both probed natively against the real posixpath/PackURI on all names "
                 "over a 9-segment alphabet up to depth 3 (C19.posixpath_probe, bounded, never counted as proved).",
     },
+    {
+        "property_id": "C14",
+        "technique": "contract-based deductive verification (pyvc over the real merge/split/TcRange/new_tbl on an unbounded symbolic grid with ghost region map; z3 E-matching)",
+        "category": "proof",
+        "text": "Grid view: gridSpan/rowSpan/hMerge/vMerge as functions of (row, col) over an unbounded R x C table plus a ghost region "
+                "map; WF = every cell lies in exactly one rectangular region inside the grid and carries the attributes merge writes "
+                "for its position. Obligations from the real sources: TcRange._extents normalises all corner orders (with "
+                "_left/_right/_top/_bottom/dimensions), contains_merged_cell iff some cell of the range is merged, "
+                "merge: WF and no overlap => WF', origin reports the span, the others are spanned, outside untouched; overlap or "
+                "other table => ValueError and nothing changes; split on an origin restores independent cells on exactly its region "
+                "and keeps WF, otherwise ValueError and no change; is_merge_origin/is_spanned characterised in WF tables; new_tbl: "
+                "rows x cols cells, widths/heights sum to the request (three nested loop invariants), ZeroDivisionError iff an empty "
+                "dimension; frame size == sum after notify_*.",
+        "note": "Assumed: TcRange's five cell iterators yield exactly their rectangle (their nested generators over lxml lists are "
+                "checked natively); loops over cell sets use the independent-iterations rule (body explored for a generic cell, "
+                "writes to that cell only). Text migration into the origin cell and the whole property on all tables <= 3x3/4x4 with "
+                "merge/split sequences of depth 2/3 are covered by the bounded C14.native_tables job (never counted as proved).",
+    },
 ]
 
 _PENDING = "check not built yet in this session (planned, see DESIGN.md section 5)"
 NOT_APPLICABLE = [
     {"property_id": p, "reason": _PENDING}
-    for p in ["C01", "C02", "C03", "C04", "C05", "C07", "C09", "C12", "C13", "C14", "C16",
+    for p in ["C01", "C02", "C03", "C04", "C05", "C07", "C09", "C12", "C13", "C16",
               ]
 ]
